@@ -1536,6 +1536,8 @@ func numTargets() []*ntarget {
 			doc: "fixnum branch of lognot"},
 		{lean: "integerLengthFix", file: "pkg/cl/integer-length.go", fn: "IntegerLength.Call", locate: "case", params: ip("ta"), pre: []string{"result:O:"}, outs: res, ret: tR, retLean: "Rep",
 			doc: "fixnum branch of integer-length"},
+		{lean: "logbitpFix", file: "pkg/cl/logbitp.go", fn: "Logbitp.Call", locate: "case", params: ip("ti", "index"), ret: tB, retLean: "Bool",
+			doc: "fixnum branch of logbitp (index = the non-negative bit index)"},
 		{lean: "zeropFix", file: "pkg/cl/zerop.go", fn: "Zerop.Call", locate: "case", params: ip("ta"), ret: tB, retLean: "Bool", doc: "fixnum branch of zerop"},
 		{lean: "pluspFix", file: "pkg/cl/plusp.go", fn: "Plusp.Call", locate: "case", params: ip("ta"), ret: tB, retLean: "Bool", doc: "fixnum branch of plusp"},
 		{lean: "minuspFix", file: "pkg/cl/minusp.go", fn: "Minusp.Call", locate: "case", params: ip("ta"), ret: tB, retLean: "Bool", doc: "fixnum branch of minusp"},
